@@ -12,6 +12,11 @@ HILL = ["hillpositive", "hillnegative", "proportionalhillpositive", "proportiona
 SP = ["A", "B", "C"]
 
 
+# general rates: rational, exponential, natural logarithm, a unary minus in front of a power, min / max / abs, a step function
+GENERAL = ["k%d*A/(1+B)", "k%d*A^2 + C", "k%d*exp(-B/4)*C", "k%d*log(A+1)", "k%d*exp(-A^2/8)", "k%d*A + Max(B - C, 0)", "k%d*Min(A, B + 1)",
+           "k%d*Abs(A-B)", "0.5*A*2^(-B^2/4) + k%d", "k%d*Heaviside(A-2.5)*B"]
+
+
 def gen_model(rng):
     rx = []
     # one parameter dictionary object handed to several reactions, as a script that defines `params = {"k": ...}` once does
@@ -31,7 +36,7 @@ def gen_model(rng):
             rx.append(([], [rng.choice(SP)], t, pd))
         else:
             rx.append(([rng.choice(SP)] if rng.chance(1, 2) else [], [rng.choice(SP)], "general",
-                       {"rate": rng.choice(["k%d*A/(1+B)" % j, "k%d*A^2 + C" % j, "k%d*exp(-B/4)*C" % j])}))
+                       {"rate": rng.choice(GENERAL) % j}))
     params = {}
     for j in range(4):
         params["k%d" % j] = rng.choice([0.5, 1.0, 2.0]); params["K%d" % j] = rng.choice([2.0, 3.0]); params["n%d" % j] = rng.choice([1.0, 2.0])
@@ -66,7 +71,7 @@ def one(ctx, rng, tmpdir):
         # ---- the property on the written file
         undefined = sorted(n for n in names if n not in defined)
         if undefined:
-            ctx.violation("kinetic-law/undefined-identifier/" + ptype, "the kinetic law of reaction %d (%s) mentions %s, which the document does not define" % (ri, ptype, undefined),
+            ctx.violation("kinetic-law/undefined-identifier/" + ptype + ("/" + "+".join(undefined) if ptype == "general" else ""), "the kinetic law of reaction %d (%s) mentions %s, which the document does not define" % (ri, ptype, undefined),
                           dict(rep, reaction=ri, law=sbml_eval.libsbml.formulaToL3String(kl)))
         else:
             for st in states:
